@@ -2,7 +2,7 @@ check("C06", "model_checking",
       "NetLocal.tla (one node, adversarial neighbours) is checked exhaustively by TLC for the action properties NoChangeOnStale, "
       "InfoMonotone, NeverBack, SelfFilter, RelayOnce/SeenGrows and GenuineIsRelayed; a real node is then driven by seeded adversarial "
       "update sequences from three scripted peers and every step (frames relayed to which neighbour, adjacency picture, per-origin "
-      "epoch/sequence, own-update counts) is validated by TLC against the same actions (NetLocalTrace.tla).",
+      "epoch/sequence, own-update counts) is validated by TLC against the same actions (NetLocalTrace.tla); a concurrent-updates scenario (two updates of one origin through two neighbours at the same instant, thousands of rounds), replayed notices, a known node connecting directly and restart scenarios of real meshes are validated event by event against NodeTrace.tla.",
       "Trusted: in-order delivery per session (memnet), the hook events used as barriers (recv/sess_end/flood/mk_update), TLC. "
       "Exhaustive only for the small constants of NetLocal_quick.cfg; the real node is sampled (seeded), not enumerated.",
       "TLA+ spec + TLC exhaustive small scope; trace validation of real-node executions (B2)", "E1 nodeconf", "DESIGN.md section 6 C06")
